@@ -2,7 +2,7 @@
 import z3
 
 from pyvc.spec import contract, REG
-from pyvc.symex import SInt, SStr, SBool, STy, Rec, LRef, Opaque, Func, fresh, fresh_str, fresh_bool, OutsideSubset
+from pyvc.symex import SInt, SStr, SBool, STy, Rec, LRef, Opaque, Func, fresh, fresh_str, fresh_bool, OutsideSubset, PyExc
 from pyvc.heap import HeapExec, SCls, subclass_formula
 
 REG.inline_ok |= {'sqlparse.sql.Token.__init__'}
@@ -228,6 +228,47 @@ class _TokenMatchingCallsite:
         # The facts below are exactly the `ensures` of the verified cases (forward: token_matching_fwd, reverse:
         # token_matching_rev), built directly instead of through the spec evaluator (same formulas, far fewer queries).
         out = []
+        fs0 = funcs if isinstance(funcs, (tuple, list)) else (funcs,)
+        if isinstance(funcs, LRef) and all(it[0] == 'el' for it in st.lists[funcs.lid]):
+            fs0 = tuple(it[1] for it in st.lists[funcs.lid])
+        single = fs0[0] if len(fs0) == 1 and not isinstance(fs0[0], Opaque) else None
+        if single is not None:
+            # (i) a predicate that does not look at the token at all (e.g. skip_ws=False, skip_cm=False): MATCH is that
+            #     constant for every position
+            try:
+                marks = len(ex.goals)
+                rr = ex.call(single, [Opaque('any-token')], {}, st.fork())
+                if len(rr) == 1 and rr[0][1] is True:
+                    n0 = n
+                    if reverse:
+                        cand, ok = zs - 2, z3.And(zs - 2 >= 0, zs - 2 < n0)
+                    else:
+                        cand, ok = zs, z3.And(zs >= 0, zs < n0)
+                    res = []
+                    for s_c, found in ex.decide(st, ok):
+                        if not found:
+                            res.append((s_c, (None, None)))
+                        else:
+                            for s_d, tok in ex.elem_at(s_c, lst, z3.simplify(cand)):
+                                res.append((s_d, (SInt(z3.simplify(cand)), tok)))
+                    return res
+            except (OutsideSubset, PyExc):
+                del ex.goals[marks:]
+            # (ii) for elements that are already materialised, MATCH at their position is the closure's value on them
+            cum = z3.IntVal(0)
+            for it in list(st.lists[lst.lid]):
+                if it[0] == 'el' and isinstance(it[1], Rec):
+                    try:
+                        marks = len(ex.goals)
+                        probe = st.fork()
+                        rr = ex.call(single, [it[1]], {}, probe)
+                        if len(rr) == 1 and len(rr[0][0].pc) == len(st.pc):
+                            b = ex.truth(rr[0][1], rr[0][0])
+                            m = ex.spec_fn('MATCH', [funcs, me, SInt(z3.simplify(cum))], {}, st)[0][1]
+                            st.assume(m.z == (z3.BoolVal(b) if isinstance(b, bool) else b))
+                    except (OutsideSubset, PyExc):
+                        del ex.goals[marks:]
+                cum = cum + ex.item_len(st, it)
         s_none = st.fork()
         if reverse:
             nm = ex.spec_fn('NOMATCH', [funcs, me, 0, SInt(zs - 1)], {}, s_none)[0][1]
@@ -253,6 +294,8 @@ class _TokenMatchingCallsite:
             s2.assume(nm2.z)
             res = (SInt(r0), tok)
             fs = funcs if isinstance(funcs, (tuple, list)) else (funcs,)
+            if isinstance(funcs, LRef) and all(it[0] == 'el' for it in s2.lists[funcs.lid]):
+                fs = tuple(it[1] for it in s2.lists[funcs.lid])
             if len(fs) == 1 and not isinstance(fs[0], Opaque):
                 # purity link: for this concrete closure MATCH(funcs, list, r0) is the value it returns on the token
                 try:
@@ -339,7 +382,8 @@ def _pick_child(ex, st):
 # verified text); _token_matching itself is always used through its contract
 REG.inline_ok |= {'sqlparse.sql.TokenList.token_next', 'sqlparse.sql.TokenList.token_prev',
                   'sqlparse.sql.TokenList.token_first', 'sqlparse.sql.TokenList.token_next_by',
-                  'sqlparse.sql.TokenList.token_matching'}
+                  'sqlparse.sql.TokenList.token_matching', 'sqlparse.sql.TokenList.token_not_matching',
+                  'sqlparse.sql.TokenList._groupable_tokens'}
 
 
 def _token_index_result(ex, st, env):
@@ -454,7 +498,11 @@ class _GroupTokensCallsite:
         lst = ex.getattr(me, 'tokens', st)
         zs, ze = ex.z_int(start), ex.z_int(end)
         out = []
-        for s1, first in ex.elem_at(st, lst, zs):
+        prepared = []
+        for s0, first in ex.elem_at(st, lst, zs):
+            for s0b, _k in ex.split_with_cases(s0, lst, z3.simplify(ze + 1)):
+                prepared.append((s0b, first))
+        for s1, first in prepared:
             ka = ex.split_at(s1, lst, zs)
             kb = ex.split_at(s1, lst, z3.simplify(ze + 1))
             ka = ex.split_at(s1, lst, zs)
